@@ -1,3 +1,310 @@
-//! Kani contract harnesses for chord (included from /repo/keyberon/src/chord.rs under cfg(kani)).
-#![allow(unused_imports, dead_code)]
+//! Kani contract harnesses for keyberon/src/chord.rs (chords v2; properties C09, C02)
+//! (included from /repo/keyberon/src/chord.rs under cfg(kani)).
+#![allow(unused_imports, dead_code, unused_mut)]
 use super::*;
+
+type Inf = core::convert::Infallible;
+static ACT: [Action<'static, Inf>; 3] = [Action::KeyCode(crate::key_code::KeyCode::A), Action::KeyCode(crate::key_code::KeyCode::B), Action::KeyCode(crate::key_code::KeyCode::C)];
+
+fn empty_chv2<'a>() -> ChordsV2<'a, Inf> {
+    // an empty FxHashMap allocates nothing and is never hashed into by the functions below
+    ChordsV2::new(ChordsForKeys { mapping: FxHashMap::default() }, 5)
+}
+
+fn any_status() -> ActiveChordStatus {
+    let k: u8 = kani::any();
+    kani::assume(k < 4);
+    match k {
+        0 => Unread,
+        1 => UnreadReleased,
+        2 => Releasable,
+        _ => Released,
+    }
+}
+
+/// next_coord: virtual coordinates stay in 851..=900 forever (base case: new() starts at 851;
+/// step: from any value in range the result and the successor are in range).
+#[kani::proof]
+fn c09_k_next_coord() {
+    let c = empty_chv2();
+    assert!(c.next_coord.get() == KEY_MAX + 1);
+    let v: u16 = kani::any();
+    kani::assume(v >= KEY_MAX + 1 && v <= KEY_MAX + 50);
+    c.next_coord.set(v);
+    let r = c.next_coord();
+    assert!(r == v);
+    let n = c.next_coord.get();
+    assert!(n >= KEY_MAX + 1 && n <= KEY_MAX + 50);
+    assert!(n == if v == KEY_MAX + 50 { KEY_MAX + 1 } else { v + 1 });
+}
+
+/// get_active_chord: "released per the configured release rule"
+#[kani::proof]
+#[kani::unwind(5)]
+fn c09_b_get_active_chord() {
+    let keys: [u16; 3] = [kani::any(), kani::any(), kani::any()];
+    let n: usize = kani::any();
+    kani::assume(n >= 1 && n <= 3);
+    let rb = if kani::any() { ReleaseBehaviour::OnFirstRelease } else { ReleaseBehaviour::OnLastRelease };
+    let ch = ChordV2 { action: &ACT[0], participating_keys: &keys[..n], pending_duration: kani::any(), disabled_layers: &[], release_behaviour: rb };
+    let since: u16 = kani::any();
+    let coord: u16 = kani::any();
+    let rel: bool = kani::any();
+    let a = get_active_chord(&ch, since, coord, rel);
+    assert!(a.coordinate == coord && a.delay == since);
+    assert!(core::ptr::eq(a.action, &ACT[0]));
+    assert!(a.participating_keys.len() == n);
+    match rb {
+        ReleaseBehaviour::OnLastRelease => {
+            // must see every participant released
+            assert!(a.remaining_keys_to_release.len() == n);
+            let mut i = 0;
+            while i < n {
+                assert!(a.remaining_keys_to_release[i] == keys[i]);
+                i += 1;
+            }
+            assert!(a.status == Unread);
+        }
+        ReleaseBehaviour::OnFirstRelease => {
+            assert!(a.remaining_keys_to_release.is_empty());
+            assert!(a.status == if rel { UnreadReleased } else { Unread });
+        }
+    }
+}
+
+fn mk_active<'a>(coord: u16, part: &'a [u16], remaining: &[u16], status: ActiveChordStatus, action: &'a Action<'a, Inf>, delay: u16) -> ActiveChord<'a, Inf> {
+    let mut r = HVec::new();
+    let mut i = 0;
+    while i < remaining.len() {
+        let _ = r.push(remaining[i]);
+        i += 1;
+    }
+    ActiveChord { coordinate: coord, remaining_keys_to_release: r, participating_keys: part, action, status, delay }
+}
+
+/// get_action_chv2: each activated chord is handed to the layout exactly once, oldest first
+#[kani::proof]
+#[kani::unwind(5)]
+fn c09_b_get_action_once() {
+    let keys: [u16; 1] = [1];
+    let mut c = empty_chv2();
+    let st = [any_status(), any_status(), any_status()];
+    let n: usize = kani::any();
+    kani::assume(n <= 3);
+    let mut i = 0;
+    while i < n {
+        let _ = c.active_chords.push(mk_active(851 + i as u16, &keys, &[], st[i], &ACT[i], 7 + i as u16));
+        i += 1;
+    }
+    let r = c.get_action_chv2();
+    // first unread one
+    let mut first: Option<usize> = None;
+    let mut i = n;
+    while i > 0 {
+        i -= 1;
+        if matches!(st[i], Unread | UnreadReleased) {
+            first = Some(i);
+        }
+    }
+    match (r, first) {
+        (None, None) => {}
+        (Some((coord, delay, act)), Some(k)) => {
+            assert!(coord == (0, 851 + k as u16) && delay == 7 + k as u16);
+            assert!(core::ptr::eq(act, &ACT[k]));
+        }
+        _ => panic!("handed out the wrong chord"),
+    }
+    let mut i = 0;
+    while i < n {
+        let want = if Some(i) == first {
+            if st[i] == Unread { Releasable } else { Released }
+        } else {
+            st[i]
+        };
+        assert!(c.active_chords[i].status == want);
+        i += 1;
+    }
+    // ... and never twice
+    if let Some(k) = first {
+        let again = c.get_action_chv2();
+        if let Some((coord, _, _)) = again {
+            assert!(coord != (0, 851 + k as u16));
+        }
+    }
+}
+
+const DQ_N: usize = 1;
+
+fn any_ev() -> Event {
+    let j: u16 = kani::any();
+    kani::assume(j < 3);
+    if kani::any() { Event::Press(0, j) } else { Event::Release(0, j) }
+}
+
+/// drain_releases: a participant's release removes it from the chord's remaining keys; when none
+/// remain the chord is released; a non-participant's release changes no chord; a release is
+/// forwarded (not swallowed) iff no press is pending before it; presses stay queued, in order.
+#[kani::proof]
+#[kani::unwind(4)]
+fn c09_b_drain_releases() {
+    let p: [u16; 2] = [kani::any(), kani::any()];
+    let mut c = empty_chv2();
+    let evs = [any_ev()];
+    let n: usize = DQ_N;
+    let mut i = 0;
+    while i < n {
+        let _ = c.queue.push_back(Queued { event: evs[i], since: kani::any() });
+        i += 1;
+    }
+    // one active chord over keys {p0, p1}, some of them still to be released
+    kani::assume(p[0] < 3 && p[1] < 3 && p[0] != p[1]);
+    let last_release: bool = kani::any();
+    let rem0: bool = kani::any();
+    let rem1: bool = kani::any();
+    let mut rem = [0u16; 2];
+    let mut rn = 0;
+    if last_release {
+        if rem0 { rem[rn] = p[0]; rn += 1; }
+        if rem1 { rem[rn] = p[1]; rn += 1; }
+    }
+    let st = any_status();
+    let _ = c.active_chords.push(mk_active(860, &p, &rem[..rn], st, &ACT[0], 0));
+    let mut dq = SmolQueue::new();
+    c.drain_releases(&mut dq);
+
+    // expected chord state
+    let mut rel_p0 = false;
+    let mut rel_p1 = false;
+    let mut any_part_released = false;
+    let mut i = 0;
+    while i < n {
+        if let Event::Release(_, j) = evs[i] {
+            if j == p[0] { rel_p0 = true; any_part_released = true; }
+            if j == p[1] { rel_p1 = true; any_part_released = true; }
+        }
+        i += 1;
+    }
+    let a = &c.active_chords[0];
+    let mut want = [0u16; 2];
+    let mut wn = 0;
+    if last_release {
+        if rem0 && !rel_p0 { want[wn] = p[0]; wn += 1; }
+        if rem1 && !rel_p1 { want[wn] = p[1]; wn += 1; }
+    }
+    assert!(a.remaining_keys_to_release.len() == wn);
+    let mut i = 0;
+    while i < wn {
+        assert!(a.remaining_keys_to_release[i] == want[i]);
+        i += 1;
+    }
+    let want_status = if any_part_released && wn == 0 {
+        match st { Unread | UnreadReleased => UnreadReleased, Releasable | Released => Released }
+    } else {
+        st
+    };
+    assert!(a.status == want_status);
+    assert!(a.coordinate == 860);
+
+    // expected queues
+    let mut seen_press = false;
+    let mut qi = 0;
+    let mut di = 0;
+    let mut i = 0;
+    while i < n {
+        match evs[i] {
+            Event::Press(..) => {
+                seen_press = true;
+                assert!(c.queue[qi].event == evs[i]);
+                qi += 1;
+            }
+            Event::Release(..) => {
+                if seen_press {
+                    assert!(c.queue[qi].event == evs[i]);
+                    qi += 1;
+                } else {
+                    assert!(dq[di].event == evs[i]);
+                    di += 1;
+                }
+            }
+        }
+        i += 1;
+    }
+    assert!(c.queue.len() == qi && dq.len() == di);
+    kani::cover!(n == DQ_N && want_status == Released && st == Releasable, "last participant released");
+    kani::cover!(n == DQ_N && di == 1 && qi == 0, "release forwarded");
+}
+
+/// clear_released_chords: exactly one Release(0, coordinate) per released chord, which is then
+/// forgotten; the others stay, in order.
+#[kani::proof]
+#[kani::unwind(4)]
+fn c09_b_clear_released() {
+    let keys: [u16; 1] = [1];
+    let mut c = empty_chv2();
+    let st = [any_status(), any_status()];
+    let n: usize = 2;
+    let mut i = 0;
+    while i < n {
+        let _ = c.active_chords.push(mk_active(851 + i as u16, &keys, &[], st[i], &ACT[i], 0));
+        i += 1;
+    }
+    let mut dq = SmolQueue::new();
+    c.clear_released_chords(&mut dq);
+    let mut di = 0;
+    let mut ai = 0;
+    let mut i = 0;
+    while i < n {
+        if st[i] == Released {
+            assert!(dq[di].event == Event::Release(0, 851 + i as u16));
+            di += 1;
+        } else {
+            assert!(c.active_chords[ai].coordinate == 851 + i as u16 && c.active_chords[ai].status == st[i]);
+            ai += 1;
+        }
+        i += 1;
+    }
+    assert!(dq.len() == di && c.active_chords.len() == ai);
+    kani::cover!(n == 2 && di == 1 && ai == 1, "one released of two");
+}
+
+/// must-fail twin: claims a release never changes a chord
+#[kani::proof]
+#[kani::unwind(6)]
+fn c09_b_drain_releases_neg() {
+    let p: [u16; 1] = [1];
+    let mut c = empty_chv2();
+    let _ = c.queue.push_back(Queued { event: Event::Release(0, 1), since: 0 });
+    let st = any_status();
+    let _ = c.active_chords.push(mk_active(860, &p, &[], st, &ACT[0], 0));
+    let mut dq = SmolQueue::new();
+    c.drain_releases(&mut dq);
+    assert!(c.active_chords[0].status == st);
+}
+
+#[kani::proof]
+#[kani::unwind(4)]
+fn zz_probe_a() {
+    let p: [u16; 2] = [1, 2];
+    let mut c = empty_chv2();
+    let _ = c.queue.push_back(Queued { event: Event::Release(0, 1), since: 0 });
+    let st = any_status();
+    let _ = c.active_chords.push(mk_active(860, &p, &[1], st, &ACT[0], 0));
+    let mut dq = SmolQueue::new();
+    c.drain_releases(&mut dq);
+    let want = match st { Unread | UnreadReleased => UnreadReleased, Releasable | Released => Released };
+    assert!(c.active_chords[0].status == want);
+    assert!(dq.len() == 1);
+}
+#[kani::proof]
+#[kani::unwind(4)]
+fn zz_probe_b() {
+    let p: [u16; 2] = [1, 2];
+    let mut c = empty_chv2();
+    let e = any_ev();
+    let _ = c.queue.push_back(Queued { event: e, since: 0 });
+    let _ = c.active_chords.push(mk_active(860, &p, &[1], Releasable, &ACT[0], 0));
+    let mut dq = SmolQueue::new();
+    c.drain_releases(&mut dq);
+    let rel1 = e == Event::Release(0, 1);
+    assert!(c.active_chords[0].status == if rel1 { Released } else { Releasable });
+}
